@@ -66,28 +66,28 @@ func writeEvidence(prop string, meta *PropMeta, tier string, seed int64, all []*
 		knownOut = append(knownOut, map[string]interface{}{"id": k.ID, "what": k.What, "times_matched_in_search": counts["known."+k.ID]})
 	}
 	cov := map[string]interface{}{
-		"evaluations":         evals,
-		"distinct_nontrivial": len(shapes),
-		"rule":                meta.Rule,
-		"samples":             samples,
-		"runs_ok":             okRuns,
-		"runs_harness_error":  harness,
-		"runs_per_hour":       int(float64(evals) / hours),
-		"seeds_per_hour":      int(float64(evals) / hours),
-		"simulated_seconds":   float64(simNanos) / 1e9,
-		"distinct_event_logs": len(logs),
-		"faults_fired":        group("fault."),
-		"hook_site_hits":      group("site."),
-		"fail_site_passes":    group("failsite."),
-		"storage_shapes":      len(group("shape.")),
-		"coalescing_degrees":  group("coalesce."),
-		"ops":                 group("op."),
-		"probes":              group("probe."),
-		"probes_at_zero":      probeWarnings,
-		"known_findings":      knownOut,
-		"workers":             workers,
-		"components_real":     meta.Real,
-		"components_stub":     meta.Stub,
+		"evaluations":          evals,
+		"distinct_nontrivial":  len(shapes),
+		"rule":                 meta.Rule,
+		"samples":              samples,
+		"runs_ok":              okRuns,
+		"runs_harness_error":   harness,
+		"runs_per_hour":        int(float64(evals) / hours),
+		"seeds_per_hour":       int(float64(evals) / hours),
+		"simulated_seconds":    float64(simNanos) / 1e9,
+		"distinct_event_logs":  len(logs),
+		"faults_fired":         group("fault."),
+		"hook_site_hits":       group("site."),
+		"fail_site_passes":     group("failsite."),
+		"storage_shapes":       len(group("shape.")),
+		"coalescing_degrees":   group("coalesce."),
+		"ops":                  group("op."),
+		"probes":               group("probe."),
+		"probes_at_zero":       probeWarnings,
+		"known_findings":       knownOut,
+		"workers":              workers,
+		"components_real":      meta.Real,
+		"components_stub":      meta.Stub,
 		"interleaving_measure": "distinct_nontrivial counts distinct (hook-site adjacency set + storage-shape + fault counters + event-log hash) among non-trivial runs",
 	}
 	if counts["tv.programs"] > 0 {
